@@ -152,6 +152,7 @@ func runNTF(spec NTFSpec, base string) vx.Out {
 		return vx.Out{Obs: "NewFileLogger: " + err.Error(), Viol: []vx.Found{{Sig: "INFRA NewFileLogger", Detail: err.Error()}}}
 	}
 	fl.consumer.SetLogger(nil, nsq.LogLevelError)
+	lastConsumer = fl.consumer
 	vrt.RegisterExternal(fl.consumer.StopChan)
 	vrt.GoNamed("router", fl.router)
 	vrt.Quiesce()
@@ -206,6 +207,22 @@ func runNTF(spec NTFSpec, base string) vx.Out {
 		tr.Events = append(tr.Events, ntfEv{Kind: "idle", What: ev})
 	}
 	return vx.Out{Obs: fmt.Sprintf("%d events", len(tr.Events))}
+}
+
+// lastConsumer: the go-nsq consumer of the last run. Its rdyLoop / handlerLoop goroutines are
+// go-nsq's own (real) goroutines and keep the FileLogger - and its gzip writer - alive; it is
+// stopped once the run is over (stopConsumer), outside the controlled execution.
+var lastConsumer *nsq.Consumer
+
+func stopConsumer() {
+	if c := lastConsumer; c != nil {
+		lastConsumer = nil
+		c.Stop() // a second Stop is a no-op
+		select {
+		case <-c.StopChan:
+		case <-time.After(2 * time.Second):
+		}
+	}
 }
 
 // ---- crash images (in memory)
@@ -440,6 +457,7 @@ func init() {
 			if f != "" && !strings.HasPrefix(f, "app exited") {
 				o.Viol = append(o.Viol, vx.Found{Sig: vx.FailSig(f) + " :: ntf " + s.Cfg.String(), Detail: fmt.Sprintf("events %v: %s", s.Events, f)})
 			}
+			stopConsumer()
 			v, n := judgeNTF(lastNTF)
 			r.Images += n
 			o.Viol = append(o.Viol, v...)
